@@ -4,9 +4,12 @@ usage: ref_all.py [refactorings|seeded] [name-prefix ...]"""
 import json, os, shutil, subprocess, sys, tempfile
 from concurrent.futures import ThreadPoolExecutor
 kind = sys.argv[1] if len(sys.argv) > 1 else 'refactorings'
-prefixes = sys.argv[2:]
+prefixes = [a for a in sys.argv[2:] if not a.startswith('--')]
+only = [a[7:] for a in sys.argv[2:] if a.startswith('--pids=')]
 PY = '/venv/bin/python'
 pids = [c['property_id'] for c in json.load(open('/verif/MANIFEST.json'))['checks']]
+if only:
+    pids = [p for p in pids if p in only[0].split(',')]
 names = sorted(n for n in os.listdir(f'/verif/{kind}')
                if os.path.isdir(f'/verif/{kind}/{n}')
                and (not prefixes or any(n.startswith(p) for p in prefixes)))
